@@ -103,7 +103,7 @@ Absent == [present |-> FALSE, w |-> <<>>]
 PinsOf(sy) == CASE sy = "3A" -> {"pin03", "pin05", "pin06", "pin19", "pin25"}
                 [] sy = "XX" -> {"P0.1", "P0.12", "pin07", "DI5"}
                 [] OTHER -> {"P0.0", "P0.3", "P0.7", "P0.8"}
-Names == IF Box = "quick" THEN {"bpod", "audio"} ELSE {"bpod", "audio", "laser"}
+Names == {"bpod", "audio"}
 NDig == IF Box = "quick" THEN 2 ELSE 3
 Digs(sy) == {Absent} \cup {[present |-> TRUE, w |-> w] : w \in Wirings(PinsOf(sy), Names, IF sy = "none" THEN 1 ELSE NDig)}
 Anas == IF Part # "sync" THEN {} ELSE {Absent} \cup {[present |-> TRUE, w |-> w] : w \in Wirings({"AI0", "AI2", "AI10", "AIN"}, Names, 2)}
@@ -156,5 +156,9 @@ VacReader == /\ \E x \in AllObs : DevStale(x[3], x[4])
              /\ \E k \in ReaderKinds : \E o \in BOOLEAN : \E q \in [1..MaxLen -> Calls] : SafeLen(RdNew(k, o), q, 1) < MaxLen   \* DANGER is reachable
 ExportReader == /\ TLCGet("distinct") >= 0
                 /\ VacReader
-                /\ JsonSerialize(IOEnv.OUT_FILE, SetToSeq(UNION {{ReaderExpect(k, o, q) : q \in ReaderSeqs(k, o)} : <<k, o>> \in ReaderKinds \X BOOLEAN}))
+                /\ JsonSerialize(IOEnv.OUT_FILE,
+                      [cases |-> SetToSeq(UNION {{ReaderExpect(k, o, q) : q \in ReaderSeqs(k, o)} : <<k, o>> \in ReaderKinds \X BOOLEAN}),
+                       readsync |-> SetToSeq({[kind |-> k, open |-> o, exp |-> ImplReadSync(k, RdNew(k, o)),
+                                               holds |-> LSyncP(ImplReadSync(k, RdNew(k, o))),
+                                               dev |-> DevFlatSync(k, ImplReadSync(k, RdNew(k, o)))] : <<k, o>> \in ReaderKinds \X BOOLEAN})])
 =============================================================================
